@@ -55,6 +55,20 @@ CACHE_APPEND = [
 ]
 
 
+# repository files built with small textual substitutions (both binaries); every pattern must match exactly once.
+# internal/async/timer.go: the periodic goroutine of Repeat skips its ticks while VerifHoldTimers is set. The real
+# listener.serve gives every accepted connection a 1 s flush timer on a goroutine the controlled scheduler does not
+# own; a scheduled scenario that runs serve (C17 part (e)) holds the timers so that a tick can never run
+# instrumented code from outside the scheduler (the first, synchronous call of the action is unaffected).
+REPO_SUBST = [
+    ("internal/async/timer.go", [
+        ('import (\n\t"context"', 'import (\n\t"sync/atomic"\n\t"context"'),
+        ("\t\t\tcase <-timer.C:\n\t\t\t\tsafeAction()", "\t\t\tcase <-timer.C:\n\t\t\t\tif VerifHoldTimers.Load() {\n\t\t\t\t\tcontinue\n\t\t\t\t}\n\t\t\t\tsafeAction()"),
+        ("// Repeat performs an action asynchronously on a predetermined interval.", "// VerifHoldTimers (verification builds only): while set, Repeat's ticks are skipped.\nvar VerifHoldTimers atomic.Bool\n\n// Repeat performs an action asynchronously on a predetermined interval."),
+    ]),
+]
+
+
 def goenv():
     env = dict(os.environ)
     env["GOFLAGS"] = "-mod=mod"
@@ -168,6 +182,18 @@ def main():
     if not os.path.exists(regpath) or open(regpath).read() != reg:
         open(regpath, "w").write(reg)
     overlay[os.path.join(VX, "cmd", "verifx", "checks_gen.go")] = regpath
+    for rel, substs in REPO_SUBST:
+        src = os.path.join(REPO, rel)
+        text = open(src).read()
+        for old, new in substs:
+            if text.count(old) != 1:
+                print("BUILD-FAILED: cannot hook %s (pattern %r)" % (rel, old))
+                sys.exit(2)
+            text = text.replace(old, new)
+        dst = os.path.join(gen, "subst_" + rel.replace("/", "_"))
+        if not os.path.exists(dst) or open(dst).read() != text:
+            open(dst, "w").write(text)
+        overlay[src] = dst
     for cached, app, subst in CACHE_APPEND:
         apppath = os.path.join(VERIF, app)
         orig = os.path.join(MODCACHE, cached)
